@@ -16,7 +16,8 @@
          | 5 tid                 the context of call tid is cancelled
          | 6 tid ok              the transport's OpenStream that call tid is parked in returns (ok=0: an error)
          | 7 k a_1..a_k          the peerstore's addresses of the peer become a_1..a_k; address = 4*id + class,
-                                 class 0 direct, 1 relay (/p2p-circuit), 2 no transport
+                                 class 0 direct, 1 relay (/p2p-circuit), 2 no transport, 3 /dnsaddr (resolved by the
+                                 harness' resolver as Model.resolve_addr says); direct ids 5,6 are given as /dns4 names
          | 8 a ok lim            the transport dial parked on address a returns (ok=1: a conn with Limited=lim)
          | 9                     virtual time advances by network.DialPeerTimeout: every wait / dial times out
          | 10 lim proxy          like 1, but the connection already reports IsClosed() when it is added
